@@ -8,20 +8,12 @@ import Optyx.Generated.PinsC15
 namespace Optyx.Props.PinsC15
 open Optyx.Generated.PinsC15
 
-/-- `_estimate_tree_depth` (core/autodiff.py) -/
-theorem pin_autodiff_estimate_tree_depth_anchor : pin_autodiff_estimate_tree_depth = "69b1f2914a61eead" := rfl
-/-- `get_all_variables` (core/expressions.py) -/
-theorem pin_expressions_get_all_variables_anchor : pin_expressions_get_all_variables = "a1d6298f795e7ee8" := rfl
+/-- `gradient` (core/autodiff.py) -/
+theorem pin_autodiff_gradient_anchor : pin_autodiff_gradient = "334729e5c1cbe697" := rfl
 /-- `_get_variables_iterative` (core/expressions.py) -/
 theorem pin_expressions_get_variables_iterative_anchor : pin_expressions_get_variables_iterative = "db2767e8b07f1c3e" := rfl
-/-- `_estimate_tree_depth` (core/expressions.py) -/
-theorem pin_expressions_estimate_tree_depth_anchor : pin_expressions_estimate_tree_depth = "a7caf48f3888a60a" := rfl
 /-- `compile_expression` (core/compiler.py) -/
 theorem pin_compiler_compile_expression_anchor : pin_compiler_compile_expression = "db0179ead8cd3aa4" := rfl
-/-- `_compile_cached` (core/compiler.py) -/
-theorem pin_compiler_compile_cached_anchor : pin_compiler_compile_cached = "4ab132ae0ee10316" := rfl
-/-- `_estimate_tree_depth` (core/compiler.py) -/
-theorem pin_compiler_estimate_tree_depth_anchor : pin_compiler_estimate_tree_depth = "6602d5290a7341a7" := rfl
 /-- `_param_value` (core/compiler.py) -/
 theorem pin_compiler_param_value_anchor : pin_compiler_param_value = "79e7de7cdae81265" := rfl
 /-- `compile_to_dict_function` (core/compiler.py) -/
@@ -30,7 +22,7 @@ theorem pin_compiler_compile_to_dict_function_anchor : pin_compiler_compile_to_d
 theorem pin_compiler_CompiledExpression_anchor : pin_compiler_CompiledExpression = "46e07aadf48eb02a" := rfl
 
 /-- every function the model of C15 transcribes (and no translator covers) is the one it was read from -/
-theorem anchors : pin_autodiff_estimate_tree_depth = "69b1f2914a61eead" ∧ pin_expressions_get_all_variables = "a1d6298f795e7ee8" ∧ pin_expressions_get_variables_iterative = "db2767e8b07f1c3e" ∧ pin_expressions_estimate_tree_depth = "a7caf48f3888a60a" ∧ pin_compiler_compile_expression = "db0179ead8cd3aa4" ∧ pin_compiler_compile_cached = "4ab132ae0ee10316" ∧ pin_compiler_estimate_tree_depth = "6602d5290a7341a7" ∧ pin_compiler_param_value = "79e7de7cdae81265" ∧ pin_compiler_compile_to_dict_function = "9c1b94dcff42b825" ∧ pin_compiler_CompiledExpression = "46e07aadf48eb02a" :=
-  ⟨pin_autodiff_estimate_tree_depth_anchor, pin_expressions_get_all_variables_anchor, pin_expressions_get_variables_iterative_anchor, pin_expressions_estimate_tree_depth_anchor, pin_compiler_compile_expression_anchor, pin_compiler_compile_cached_anchor, pin_compiler_estimate_tree_depth_anchor, pin_compiler_param_value_anchor, pin_compiler_compile_to_dict_function_anchor, pin_compiler_CompiledExpression_anchor⟩
+theorem anchors : pin_autodiff_gradient = "334729e5c1cbe697" ∧ pin_expressions_get_variables_iterative = "db2767e8b07f1c3e" ∧ pin_compiler_compile_expression = "db0179ead8cd3aa4" ∧ pin_compiler_param_value = "79e7de7cdae81265" ∧ pin_compiler_compile_to_dict_function = "9c1b94dcff42b825" ∧ pin_compiler_CompiledExpression = "46e07aadf48eb02a" :=
+  ⟨pin_autodiff_gradient_anchor, pin_expressions_get_variables_iterative_anchor, pin_compiler_compile_expression_anchor, pin_compiler_param_value_anchor, pin_compiler_compile_to_dict_function_anchor, pin_compiler_CompiledExpression_anchor⟩
 
 end Optyx.Props.PinsC15
